@@ -6,6 +6,7 @@
 pub mod core;
 pub mod enumr;
 pub mod model;
+pub mod sched;
 pub mod seq;
 pub mod util;
 
